@@ -17,16 +17,16 @@ variable {Opts Factory : Type} [BEq Opts] [Hashable Opts]
     (applyEff s t e).threads = s.threads := by
   cases e <;> rfl
 
-theorem stepThread_none {T : Code → Opts → Nat → Factory} {s : State Opts Factory} {t : Tid}
+theorem stepThread_none {T : Code → Opts → Nat → Option Factory} {s : State Opts Factory} {t : Tid}
     (h : s.threads[t]? = none) : stepThread T s t = s := by
   simp [stepThread, h]
 
-theorem stepThread_nil {T : Code → Opts → Nat → Factory} {s : State Opts Factory} {t : Tid}
+theorem stepThread_nil {T : Code → Opts → Nat → Option Factory} {s : State Opts Factory} {t : Tid}
     {th : Thread Opts Factory} (h : s.threads[t]? = some th) (h2 : th.todo = []) :
     stepThread T s t = s := by
   simp [stepThread, h, h2]
 
-theorem stepThread_cons {T : Code → Opts → Nat → Factory} {s : State Opts Factory} {t : Tid}
+theorem stepThread_cons {T : Code → Opts → Nat → Option Factory} {s : State Opts Factory} {t : Tid}
     {th : Thread Opts Factory} {r : Request Opts} {rest : List (Request Opts)}
     (h : s.threads[t]? = some th) (h2 : th.todo = r :: rest) :
     stepThread T s t =
@@ -81,12 +81,12 @@ end
 
 section
 variable {Opts Factory : Type} [BEq Opts] [Hashable Opts] [LawfulBEq Opts]
-variable (T : Code → Opts → Nat → Factory) (P : List (Request Opts))
+variable (T : Code → Opts → Nat → Option Factory) (P : List (Request Opts))
 
 /-- `f` is the conversion of code value `v` under options `o`, computed against the namespace view of
 some requester (in the history `P`) of an equal code object with equal options. -/
 def Served (v : Nat) (o : Opts) (f : Factory) : Prop :=
-  ∃ r0 ∈ P, r0.code.val = v ∧ r0.opts = o ∧ f = T r0.code o r0.env.sig
+  ∃ r0 ∈ P, r0.code.val = v ∧ r0.opts = o ∧ T r0.code o r0.env.sig = some f
 
 def PcG (s : State Opts Factory) (r : Request Opts) : Pc Factory → Prop
   | .has2 _ b => ∃ bk, s.heap[b]? = some (r.code.val, bk)
@@ -188,11 +188,14 @@ theorem action_G {s : State Opts Factory} (g : G T P s) {t : Tid} {th : Thread O
       by_cases hh : h = t <;> simp [hh, PcG]
   | xform =>
     simp only [action]
-    refine ⟨?_, by simp, by simp⟩
-    intro pc' h
-    simp only [Next.goto.injEq] at h
-    subst h
-    exact ⟨r, hrP, rfl, rfl, rfl⟩
+    cases hT : T r.code r.opts r.env.sig with
+    | none => simp [PcG]
+    | some f =>
+      refine ⟨?_, by simp, by simp⟩
+      intro pc' h
+      simp only [Next.goto.injEq] at h
+      subst h
+      exact ⟨r, hrP, rfl, rfl, hT⟩
   | st1 f =>
     rw [hp] at hpc
     simp only [action]
